@@ -416,7 +416,7 @@ def run(ctx):
             emin, lo, nev = oracle_vqe(ctx, L, nocc, x0, exc, maxiter=(120 if exc != "s" else (200 if ctx.thorough else 120)), phase=phase)
             ctx.evaluations += 1
             ctx.nontriv({"kind": "vqe", "L": L, "nocc": nocc, "exc": exc, "phase": phase, "evaluations": nev})
-            if nvqe < 2:
+            if nvqe < 1:
                 ctx.sample({"kind": "vqe", "L": L, "nocc": nocc, "exc": exc, "phase": phase, "sector_min": emin,
                             "lowest_reported": lo, "evaluations": nev})
             nvqe += 1
